@@ -93,7 +93,11 @@ func ruleR11b(c *Ctx) {
 	c.seen("pomsg.newBundle")
 	written := map[string]bool{}
 	xinfo := c.Pkgs[xrel].TypesInfo
-	ast.Inspect(ex.Body, func(x ast.Node) bool {
+	exScope := &ast.BlockStmt{} // extract, or the function it builds the entry in (poMessage)
+	for _, hd := range c.withHelpers(xrel, ex, 2) {
+		exScope.List = append(exScope.List, hd.Body)
+	}
+	ast.Inspect(exScope, func(x ast.Node) bool {
 		if e, ok := x.(ast.Expr); ok {
 			if v := xinfo.Types[e].Value; v != nil && v.Kind() == constant.String {
 				for _, m := range kvPrefix.FindAllStringSubmatch(constant.StringVal(v), -1) {
